@@ -13,6 +13,7 @@ def step (s : ExponentialMovingAverage F) (x : F) : ExponentialMovingAverage F :
 
 theorem next_eq (s : ExponentialMovingAverage F) (x : F) : s.next x = some (step s x, (step s x).current) := by
   unfold next step
+  try simp only [gen_helper]
   cases s.is_new <;> rfl
 
 theorem step_period (s : ExponentialMovingAverage F) (x : F) : (step s x).period = s.period := by
@@ -28,6 +29,7 @@ theorem next_total (s : ExponentialMovingAverage F) (x : F) (h : WF s) :
 
 theorem nextBar_eq (s : ExponentialMovingAverage F) (b : Bar F) : s.nextBar b = s.next b.close := by
   unfold nextBar
+  try simp only [gen_helper]
   cases h : s.next b.close <;> simp [h]
 
 end TaRs.Gen.ExponentialMovingAverage
